@@ -190,11 +190,9 @@ func (m *MuxBroker) getStream(id uint32) *muxBrokerPending {
 func (m *MuxBroker) timeoutWait(id uint32, p *muxBrokerPending) {
 	// Wait for the stream to either be picked up and connected, or
 	// for a timeout.
-	timeout := false
 	select {
 	case <-p.doneCh:
 	case <-time.After(5 * time.Second):
-		timeout = true
 	}
 	verifhook.Point("muxbroker.timeoutwait.pre-lock")
 
@@ -204,13 +202,12 @@ func (m *MuxBroker) timeoutWait(id uint32, p *muxBrokerPending) {
 	// Delete the stream so no one else can grab it
 	delete(m.streams, id)
 
-	// If we timed out, then check if we have a channel in the buffer,
-	// and if so, close it.
-	if timeout {
-		select {
-		case s := <-p.ch:
-			s.Close()
-		default:
-		}
+	// The entry is gone, so nobody can accept a connection that is still in
+	// the buffer (it was never picked up, or it was parked after the accepted
+	// one): close it so that its dialer is not left waiting for an ack.
+	select {
+	case s := <-p.ch:
+		s.Close()
+	default:
 	}
 }
